@@ -68,9 +68,9 @@ def judge(doc, data, spans, want, o):
         if idx != spans[want["at"]][0]:
             return "predicted incorrect-context rejection of item %d at byte %d, diagnostic is at byte %d (%r)" % (
                 want["at"], spans[want["at"]][0], idx, e["msg"])
-    elif v == "err_close":
+    elif v in ("err_close", "err_open"):
         if idx != spans[want["at"]][0]:
-            return "predicted rejection of ')' item %d at byte %d, diagnostic is at byte %d (%r)" % (
+            return "predicted rejection of the parenthesis item %d at byte %d, diagnostic is at byte %d (%r)" % (
                 want["at"], spans[want["at"]][0], idx, e["msg"])
     elif v == "err_eof":
         last = max(s[0] for s in spans.values()) if spans else 0
